@@ -133,6 +133,13 @@ package cache
 // The pod-resources fetch runs in a goroutine. The engine follows two schedules of it (ran to completion at the spawn
 // point / has not started when goFetchPodResources returns). C15: when the call returns, the fields a later reader
 // synchronises on are in place whatever the schedule - GetPodResources then waits on waitResCh until the result is in.
+// The fetch goroutine itself: whatever it receives (the sender closes the channel in every case, see pkg/agent), it
+// releases the readers by closing the wait channel; it writes nothing but the pod's resources.
+//@ func (*pod).goFetchPodResources$1 safety=C14,C15
+//@   requires p != nil && p.waitResCh != nil && !closed(p.waitResCh)
+//@   modifies p.PodResources, closed(p.waitResCh)
+//@   ensures[C14,C15] closed(p.waitResCh)
+
 //@ func (*pod).goFetchPodResources safety
 //@   requires p != nil
 //@   modifies p.podResCh, p.waitResCh, p.PodResources
